@@ -759,6 +759,15 @@ func alterationsJ(cl *cluster.Cluster, m, other *pbv1.QBFTConsensusMsg, n int, j
 			cp6.Values[v].Value[n-3] ^= 0x01
 			out = append(out, alt{class: "value/raw-byte", msg: cp6})
 		}
+		// the same length, prefix, suffix and CRC-32 / CRC-64 checksums as the authentic value, other content:
+		// whatever a receiver uses to recognise "a value it has already hashed", it must not be a weak digest
+		if n := len(m.GetValues()[v].GetValue()); n >= 64 {
+			if cb := collide(m.GetValues()[v].GetValue(), n/2-16, n/2+16); cb != nil {
+				cp7 := cloneMsg(m)
+				cp7.Values[v].Value = cb
+				out = append(out, alt{class: "value/same-length-same-crc-other-content", msg: cp7})
+			}
+		}
 		cp4 := cloneMsg(m)
 		if len(cp4.Values[v].Value) > 2 {
 			cp4.Values[v].Value = cp4.Values[v].Value[:len(cp4.Values[v].Value)-2]
